@@ -1,0 +1,46 @@
+//! Verification hooks for `sound` internals (compiled only with `--cfg kira_verif`).
+#![allow(missing_docs)]
+
+use super::{transport::Transport, Region};
+
+/// Public wrapper over the crate-private `Transport`.
+pub struct HTransport(Transport);
+
+impl HTransport {
+	pub fn new(
+		start_position: usize,
+		loop_region: Option<Region>,
+		reverse: bool,
+		sample_rate: u32,
+		num_frames: usize,
+	) -> Self {
+		Self(Transport::new(
+			start_position,
+			loop_region,
+			reverse,
+			sample_rate,
+			num_frames,
+		))
+	}
+	pub fn position(&self) -> usize {
+		self.0.position
+	}
+	pub fn playing(&self) -> bool {
+		self.0.playing
+	}
+	pub fn loop_region(&self) -> Option<(usize, usize)> {
+		self.0.loop_region
+	}
+	pub fn set_loop_region(&mut self, loop_region: Option<Region>, sample_rate: u32, num_frames: usize) {
+		self.0.set_loop_region(loop_region, sample_rate, num_frames)
+	}
+	pub fn increment_position(&mut self, num_frames: usize) {
+		self.0.increment_position(num_frames)
+	}
+	pub fn decrement_position(&mut self) {
+		self.0.decrement_position()
+	}
+	pub fn seek_to(&mut self, position: usize, num_frames: usize) {
+		self.0.seek_to(position, num_frames)
+	}
+}
